@@ -31,6 +31,7 @@ type SchemaNode struct {
 	AnyKind     bool            // an alternative without "type" (e.g. {} or enum only)
 	UniqueItems bool            // some array alternative has uniqueItems
 	Props       map[string]bool // named properties of the object alternatives
+	Required    map[string]bool // members some object alternative requires
 	Pattern     bool            // has patternProperties / additionalProperties schema -> ".*" child
 	Open        bool            // additionalProperties: true or absent on an object alternative
 	Extensions  bool            // "^x-" pattern allowed
@@ -174,6 +175,16 @@ func (s *Schema) walk(n map[string]any, path string, refStack []string) error {
 	for _, k := range kinds {
 		if k == KObject {
 			isObj = true
+		}
+	}
+	if req, ok := n["required"].([]any); ok {
+		for _, r := range req {
+			if name, isS := r.(string); isS {
+				if node.Required == nil {
+					node.Required = map[string]bool{}
+				}
+				node.Required[name] = true
+			}
 		}
 	}
 	if props, ok := n["properties"].(map[string]any); ok {
